@@ -55,6 +55,7 @@ class World:
         self.tasks_return = False
         self.recording = True
         self.objects = {}        # id -> descriptor dict
+        self.assumptions = []
         ctx.data['world'] = self
         ctx.data['trace'] = self.trace
         if tname != 'seq':
@@ -74,6 +75,11 @@ class World:
 
     def fresh_bool(self, name):
         return self.ctx.fresh_bool(name)
+
+    def assume(self, c):
+        """assumption over this thread's own fresh symbols (a stated bound); carried into the BMC as a global constraint"""
+        self.assumptions.append(c)
+        self.ctx.add(c)
 
     def emit(self, kind, obj=None, args=(), res=None, extra=None):
         e = Event(kind, obj, args, res, tuple(self.held), None, extra)
